@@ -14,6 +14,7 @@ import (
 	"runtime"
 	"strconv"
 	"strings"
+	"sync"
 	"syscall"
 	"time"
 
@@ -182,7 +183,11 @@ func createCompiledRouteHandler(route *ast.Route, bytecode []byte, wsHub *websoc
 			}
 		}
 
-		// Parse and inject request body as 'input' for POST/PUT/PATCH requests
+		// Parse the request body for POST/PUT/PATCH requests and bind it as
+		// 'input' the way the interpreter does: a declared input type is
+		// enforced (also against a missing or non-object body) and its field
+		// defaults are applied before the route body runs.
+		var requestBody interface{}
 		if ctx.Request.Method == "POST" || ctx.Request.Method == "PUT" || ctx.Request.Method == "PATCH" {
 			contentType := ctx.Request.Header.Get("Content-Type")
 			shouldParseJSON := contentType == "" ||
@@ -196,24 +201,19 @@ func createCompiledRouteHandler(route *ast.Route, bytecode []byte, wsHub *websoc
 				var bodyMap map[string]interface{}
 				decoder := json.NewDecoder(limitedReader)
 				if err := decoder.Decode(&bodyMap); err == nil {
-					// Validate against the declared input type, as the
-					// interpreter path does. Without this a compiled route
-					// accepts any body at all: `< input: NewUser` was enforced
-					// only when a provider injection forced interpreter mode.
-					if err := validateCompiledInput(route, bodyMap); err != nil {
-						ctx.Request.Body.Close()
-						return sendClientError(ctx, err.Error())
-					}
-					vmInstance.SetLocal("input", interfaceToValue(bodyMap))
-				} else {
-					vmInstance.SetLocal("input", vm.NullValue{})
+					requestBody = bodyMap
 				}
 				ctx.Request.Body.Close()
-			} else {
-				vmInstance.SetLocal("input", vm.NullValue{})
 			}
-		} else {
+		}
+		input, inputErr := bindCompiledInput(route, requestBody)
+		if inputErr != nil {
+			return sendClientError(ctx, inputErr.Error())
+		}
+		if input == nil {
 			vmInstance.SetLocal("input", vm.NullValue{})
+		} else {
+			vmInstance.SetLocal("input", interfaceToValue(input))
 		}
 
 		// Inject request headers as 'headers' object. Keys use Go's
@@ -788,29 +788,62 @@ func setCompiledTypeDefs(module *ast.Module) {
 	compiledTypeDefs = defs
 }
 
-// validateCompiledInput checks a decoded request body against the route's
-// declared input type, mirroring what the interpreter does at
-// interpreter.go:558. Fields carrying a default are not treated as required,
-// so this does not reject bodies the interpreter would accept.
-func validateCompiledInput(route *ast.Route, body map[string]interface{}) error {
+// bindCompiledInput turns the decoded request body (nil when there is none or
+// it could not be parsed) into the route's 'input' value, mirroring
+// Interpreter.ExecuteRoute: with a declared input type a body that is not a
+// JSON object is refused when the type has required fields, defaults are
+// filled in for absent fields, and the result is validated against the type.
+func bindCompiledInput(route *ast.Route, body interface{}) (interface{}, error) {
 	if route.InputType == nil {
-		return nil
+		return body, nil
 	}
 	named, ok := route.InputType.(ast.NamedType)
 	if !ok {
-		return nil
+		return body, nil
 	}
 	typeDef, exists := compiledTypeDefs[named.Name]
 	if !exists {
-		return nil
+		return body, nil
+	}
+	obj, isObject := body.(map[string]interface{})
+	if !isObject {
+		for _, field := range typeDef.Fields {
+			if field.Required && field.Default == nil {
+				return nil, fmt.Errorf("input validation failed: request body must be a JSON object")
+			}
+		}
+		return body, nil
 	}
 
+	withDefaults, err := compiledDefaults().ApplyTypeDefaults(obj, typeDef, interpreter.NewEnvironment())
+	if err != nil {
+		return nil, fmt.Errorf("error applying defaults: %v", err)
+	}
 	checker := interpreter.NewTypeChecker()
 	checker.SetTypeDefs(compiledTypeDefs)
-	if err := checker.ValidateObjectAgainstTypeDef(body, typeDef); err != nil {
-		return fmt.Errorf("input validation failed: %v", err)
+	if err := checker.ValidateObjectAgainstTypeDef(withDefaults, typeDef); err != nil {
+		return nil, fmt.Errorf("input validation failed: %v", err)
 	}
-	return nil
+	return withDefaults, nil
+}
+
+var (
+	compiledDefaultsOnce   sync.Once
+	compiledDefaultsInterp *interpreter.Interpreter
+)
+
+// compiledDefaults returns the interpreter compiled routes use to evaluate
+// the default expressions of input type fields.
+func compiledDefaults() *interpreter.Interpreter {
+	compiledDefaultsOnce.Do(func() { compiledDefaultsInterp = interpreter.NewInterpreter() })
+	return compiledDefaultsInterp
+}
+
+// validateCompiledInput checks a decoded request body against the route's
+// declared input type (see bindCompiledInput).
+func validateCompiledInput(route *ast.Route, body map[string]interface{}) error {
+	_, err := bindCompiledInput(route, body)
+	return err
 }
 
 // sendClientError reports a caller mistake with a 4xx, distinct from the
